@@ -56,6 +56,7 @@ class Ctx:
         self.notes = []
         self.stage_info = []
         self.event_kinds = {}   # family -> {kind: events written}
+        self.missing_kinds = []
         self.bin = None
 
     def thorough(self):
@@ -197,12 +198,13 @@ class Ctx:
                 have = self.event_kinds.setdefault(name or family, {})
                 for k, n in kinds.items():
                     have[k] = have.get(k, 0) + n
-                if not cases and p.returncode == 0 and not os.environ.get("VERIF_NO_KINDS"):
+                if p.returncode == 0 and not os.environ.get("VERIF_NO_KINDS"):
                     want = EXPECTED_KINDS.get(name or family, {}).get(self.tier, [])
                     missing = [k for k in want if not kinds.get(k)]
                     if missing:
-                        raise CheckError("harness %s wrote no event of kind %s (spec/expected_kinds.json): a generator branch is dead"
-                                         % (family, ", ".join(missing)))
+                        # decided at the end of the run: on a tree that breaks the property the missing events may have
+                        # turned into panics or time-outs, and those are violations, not a dead generator
+                        self.missing_kinds.append("%s: %s" % (family, ", ".join(missing)))
         files = sorted(os.path.join(out, f) for f in os.listdir(out) if f.endswith(".ndjson"))
         return [f for f in files if os.path.getsize(f) > 0]
 
@@ -358,4 +360,8 @@ def finish(ctx, signature, level_rule, assumptions, trusted_base, extra_cov=None
     os.replace(tmp, os.path.join(evdir, ctx.pid + ".json"))
     print("%s %s: %d model states, %d real-code events judged by TLC, %d rejected (%d known), %.0fs"
           % (ctx.pid, ctx.tier, ctx.states, ctx.events, len(ctx.rejected), sum(known_hits.values()), time.time() - ctx.t0))
+    if not violations and ctx.missing_kinds:
+        print("ERROR %s %s: the harness wrote no event of a kind it is expected to write (spec/expected_kinds.json) - a generator "
+              "branch is dead: %s" % (ctx.pid, ctx.tier, "; ".join(ctx.missing_kinds)))
+        return 2
     return 1 if violations else 0
